@@ -48,6 +48,7 @@ def _mkgen():
             zi.external_attr = (stat.S_IFREG | 0o644) << 16
         z.writestr(zi, data)
 
+    add("via", b"latest/f.txt", link=True)               # link whose target lies THROUGH a directory link that is stored later
     add("a_alias.txt", b"b_alias.txt", link=True)       # link -> link -> file, outer link stored first
     add("b_alias.txt", b"data.txt", link=True)
     add("data.txt", b"data\n")
@@ -244,7 +245,7 @@ def body_cross(fx: int, wfx: int, pi: int) -> bool:
 # ------------------------------------------------------------------ archive vs extraction through the real handler chain
 
 GEN_DIRS = ["", "/v2", "/imp", "/imp/deep", "/meta", "/gm", "/odd", "/current", "/latest", "/odd/q?dir"]
-GEN_DOCS = ["/odd/what?.txt", "/odd/a|b.txt", "/odd/q?dir/inner.txt", "/meta/c.txt.gz", "/data.txt", "/a_alias.txt", "/b_alias.txt", "/imp/abs", "/imp/up", "/imp/.hidden", "/meta/doc.txt", "/caf\u00e9.txt", "/\udcae.txt", "/imp/dangling", "/imp/loop1", "/imp/out", "/nonexistent", "/current/f.txt"]
+GEN_DOCS = ["/via", "/odd/what?.txt", "/odd/a|b.txt", "/odd/q?dir/inner.txt", "/meta/c.txt.gz", "/data.txt", "/a_alias.txt", "/b_alias.txt", "/imp/abs", "/imp/up", "/imp/.hidden", "/meta/doc.txt", "/caf\u00e9.txt", "/\udcae.txt", "/imp/dangling", "/imp/loop1", "/imp/out", "/nonexistent", "/current/f.txt"]
 REQS = [(d, "menu") for d in GEN_DIRS] + [(d, "gopher+dir") for d in GEN_DIRS[:7]] + [(d, "doc") for d in GEN_DOCS]
 
 
